@@ -4,7 +4,7 @@ harness/queuemon.cpp (tsan and asan flavors, public API only) records every clie
 child behaviours (harness/qchild.c) on the lane-based and serial execution queues and judges the log offline; this driver
 shards the profiles over the cores, resumes a shard after a sanitizer abort or a watchdog exit, collects ThreadSanitizer
 reports, and runs one small workload under strace fault injection (poll -> ENOMEM)."""
-import json, os, re, shutil, subprocess
+import json, os, re, shutil, signal, subprocess, tempfile, time
 import vlib
 
 LIBS = ["llbuildBasic", "llvmSupport"]
@@ -42,6 +42,78 @@ def build_child():
             raise vlib.HarnessFailure("qchild failed to compile:\n" + r.stdout[-3000:])
         os.rename(out + ".tmp%d" % os.getpid(), out)
     return out
+
+
+def _proc_info(pid):
+    try:
+        st = open("/proc/%s/stat" % pid).read()
+        comm = st[st.index("(") + 1:st.rindex(")")]
+        ppid = int(st[st.rindex(")") + 2:].split()[1])
+        argv0 = open("/proc/%s/cmdline" % pid, "rb").read().split(b"\0")[0].decode("utf-8", "replace")
+        return comm, ppid, argv0
+    except (OSError, ValueError, IndexError):
+        return None
+
+
+def kill_orphans(child):
+    """Helper children whose harness is gone (abort, watchdog exit) would sleep forever: llbuild gives every child its own
+    process group, so the driver's killpg() does not reach them.  Only children of THIS helper path whose parent is not a
+    living harness are touched."""
+    n = 0
+    for pid in os.listdir("/proc"):
+        if not pid.isdigit():
+            continue
+        info = _proc_info(pid)
+        if not info or info[2] != child:
+            continue
+        par = _proc_info(info[1])
+        if par and par[0].startswith("queuemon"):
+            continue
+        try:
+            os.kill(int(pid), signal.SIGKILL)
+            n += 1
+        except OSError:
+            pass
+    return n
+
+
+def run_wrapped(cmd, timeout, env, child):
+    """vlib.run_child for a harness under strace -f: when the harness dies with children still alive, strace keeps waiting
+    for those orphans; notice that the harness is gone and remove them."""
+    e = dict(os.environ)
+    e.update(vlib.SAN_ENV)
+    e.update(env or {})
+    outf = tempfile.TemporaryFile(dir=vlib.SCRATCH)
+    errf = tempfile.TemporaryFile(dir=vlib.SCRATCH)
+    p = subprocess.Popen(cmd, stdout=outf, stderr=errf, stdin=subprocess.DEVNULL, env=e, start_new_session=True)
+    t0 = time.time()
+    gone_since = None
+    timed_out = False
+    while p.poll() is None:
+        time.sleep(0.2)
+        alive = False
+        for pid in os.listdir("/proc"):
+            if pid.isdigit():
+                info = _proc_info(pid)
+                if info and info[1] == p.pid and info[0].startswith("queuemon"):
+                    alive = True
+                    break
+        if alive:
+            gone_since = None
+        else:
+            gone_since = gone_since or time.time()
+            if time.time() - gone_since > 1.0:
+                kill_orphans(child)
+        if time.time() - t0 > timeout:
+            timed_out = True
+            try:
+                os.killpg(p.pid, signal.SIGKILL)
+            except OSError:
+                pass
+            p.wait()
+    outf.seek(0)
+    errf.seek(0)
+    return (-9 if timed_out else p.returncode), outf.read(), errf.read(), timed_out
 
 
 def tsan_reports(err):
@@ -89,7 +161,10 @@ def run_range(binp, flavor, profile, seed, lo, hi, child, sd, thorough, tag, wat
         base = [binp, "--profile", profile, "--seed", str(seed), "--from", str(lo), "--count", str(hi - lo), "--child", child, "--dir", d,
                 "--watchdog-ms", str(watchdog_ms)] + (["--thorough"] if thorough else []) + (extra or [])
         cmd = (wrap or []) + base
-        rc, out, err, to = vlib.run_child(cmd, 3600 if thorough else 1200, env=env)
+        if wrap:
+            rc, out, err, to = run_wrapped(cmd, 3600 if thorough else 1200, env, child)
+        else:
+            rc, out, err, to = vlib.run_child(cmd, 3600 if thorough else 1200, env=env)
         e = err.decode("utf-8", "replace")
         rr = vlib.parse_jsonl(out)
         for r in rr:
@@ -116,7 +191,7 @@ def run_range(binp, flavor, profile, seed, lo, hi, child, sd, thorough, tag, wat
             recs += [r for r in rr if not ("viol" in r and r["viol"].startswith("hang:"))]
             one = (wrap or []) + [binp, "--profile", profile, "--seed", str(seed), "--case", str(last), "--child", child, "--dir", d + "r",
                                   "--watchdog-ms", str(watchdog_ms)] + (["--thorough"] if thorough else []) + (extra or [])
-            rc2, out2, err2, to2 = vlib.run_child(one, 1200, env=env)
+            rc2, out2, err2, to2 = run_wrapped(one, 1200, env, child) if wrap else vlib.run_child(one, 1200, env=env)
             if rc2 == 3:
                 recs += hang[:1]
             elif rc2 != 0:
@@ -260,5 +335,6 @@ def run(tier, replay):
                            "LLBUILD_TEST=1 shortens the SIGKILL escalation to 1 s; only a few cases stage children that need it",
                            "timing-dependent windows (cancellation racing spawn, release racing destruction) are sampled, not enumerated"]
     finally:
+        kill_orphans(child)
         shutil.rmtree(sd, ignore_errors=True)
     return chk.finish()
